@@ -71,6 +71,9 @@ class TCPGateway(BaseSyncGateway, BaseTCPGateway):
     def __init__(self, *args, **kwargs):
         """Set up TCP gateway."""
         transport = SyncTransport(self, sync_connect, **kwargs)
+        # Transport options are not passed on to the base gateway classes.
+        kwargs.pop("timeout", None)
+        kwargs.pop("reconnect_timeout", None)
         super().__init__(transport, *args, **kwargs)
 
     def get_gateway_id(self):
@@ -124,6 +127,9 @@ class AsyncTCPGateway(BaseAsyncGateway, BaseTCPGateway):
         self.cancel_check_conn = None
         protocol = AsyncTCPMySensorsProtocol
         transport = AsyncTransport(self, async_connect, protocol=protocol, **kwargs)
+        # Transport options are not passed on to the base gateway classes.
+        kwargs.pop("timeout", None)
+        kwargs.pop("reconnect_timeout", None)
         super().__init__(transport, *args, **kwargs)
 
     def check_connection(self):
